@@ -169,7 +169,7 @@ def run(tier):
     c.tlc_model_ok(r, "Session_model.cfg")
     cov["states"], cov["transitions"] = r.distinct, r.generated
     guards = {}
-    for cfg, inv in (("Session_nogi.cfg", "C19_GraphStable"), ("Session_nosf.cfg", "C19_GraphStable"), ("Session_noct.cfg", "C19_FlatStable"), ("Session_nosm.cfg", "C19_SerialsStable")):
+    for cfg, inv in (("Session_nogi.cfg", "C19_GraphStable"), ("Session_nosf.cfg", "C19_GraphStable"), ("Session_noct.cfg", "C19_FlatStable"), ("Session_nosm.cfg", "C19_SerialsStable"), ("Session_notouch.cfg", "C19_FlatStable")):
         g = c.tlc("SessionMC", cfg, workers=2, timeout=600)
         if inv not in g.violated:
             raise c.Trouble("%s was expected to violate %s (vacuity guard)\n%s" % (cfg, inv, g.out[-1500:]))
